@@ -7,6 +7,7 @@ package life
 import (
 	"fmt"
 	"sync"
+	"time"
 
 	"github.com/bluenviron/gortsplib/v5"
 )
@@ -27,6 +28,7 @@ type Rec struct {
 	dropped int
 	counts  map[string]int
 	all     bool // Close returned: log everything from now on
+	slow    time.Duration
 }
 
 func NewRec() *Rec {
@@ -110,7 +112,11 @@ func (r *Rec) Packet(s *gortsplib.ServerSession, what string) {
 	} else {
 		r.dropped++
 	}
+	slow := r.slow
 	r.mu.Unlock()
+	if slow > 0 {
+		time.Sleep(slow)
+	}
 }
 
 // ClientPacket / ClientRequest: callbacks of the client under test (identity 0).
@@ -123,7 +129,11 @@ func (r *Rec) ClientPacket(what string) {
 	} else {
 		r.dropped++
 	}
+	slow := r.slow
 	r.mu.Unlock()
+	if slow > 0 {
+		time.Sleep(slow)
+	}
 }
 
 func (r *Rec) ClientRequest(what string) {
